@@ -26,7 +26,8 @@ var njIDs = []uint64{10, 20, 3000}
 
 type world struct {
 	conn
-	root string
+	root  string
+	other string // root of a second, empty repository (a valid UUID that is foreign to the first)
 }
 
 func u64le(v []uint64) []byte {
@@ -107,6 +108,14 @@ func (w *world) setup() error {
 		return fmt.Errorf("harness: new repo: %s", r)
 	}
 	w.root = rr.Root
+	if r, err = post("repos", []byte(`{"alias":"c20other","description":"foreign repo"}`)); err != nil {
+		return err
+	}
+	var r2 struct{ Root string }
+	if json.Unmarshal(r.Body, &r2) != nil || r2.Root == "" {
+		return fmt.Errorf("harness: second repo: %s", r)
+	}
+	w.other = r2.Root
 	mk := func(typ, name string, extra map[string]string) error {
 		m := map[string]string{"typename": typ, "dataname": name}
 		for k, v := range extra {
